@@ -201,7 +201,7 @@ class ScriptRunner:
             return t[2] in ('amem', 'aalt', 'aovl', 'apend')
         if t[0] in ('join', 'parent', 'root'):
             return t[2] in self.async_vars
-        if t[0] in ('hwrite', 'hflush', 'hseek', 'hread', 'hdrop', 'wnext', 'wdrop'):
+        if t[0] in ('hwrite', 'hflush', 'hseek', 'hread', 'hreadall', 'hdrop', 'wnext', 'wdrop'):
             return t[1] in self.async_vars
         if t[0] in ('hopen', 'wopen'):
             return t[2] in self.async_vars
@@ -447,6 +447,17 @@ class ScriptRunner:
                     return 'ok:toolarge'
                 o.value = (k, buf)
             return 'ok:%d:%s' % (k, hx(conc(buf[:min(k, n)])))
+        if op == 'hreadall':
+            # Read::read_to_end on the handle (the type's own override if it has one)
+            buf = [S()]
+            o = self.last = w.guard(lambda: models.call_model(ex, '<Box<dyn SeekAndRead + Send> as std::io::Read>::read_to_end', [self.handles[t[1]], Ref(buf, 0)]))
+            if not o.ok:
+                return fmt_err(o)
+            k = o.value
+            if type(k) is not int:
+                k = ex.concretize(k, 64)
+            o.value = (k, buf[0])
+            return 'ok:%s:%s' % (k, hx(conc(buf[0])))
         if op == 'wopen':
             o = self.last = w.call('walk_dir', P[t[2]])
             if not o.ok:
